@@ -190,11 +190,19 @@ def rand_mgs(rng):
                 parts.append(sums)
             if rng.random() < 0.1:
                 parts = []
+            if parts and rng.random() < 0.35:
+                # fine partitions: every element its own part, and the same with two elements merged -- constraints with
+                # repeated values, and pairs of constraints over the same value set with different multiplicities
+                fine = list(g); rng.shuffle(fine)
+                coarse = list(fine)
+                if len(coarse) >= 2:
+                    a = coarse.pop(rng.randrange(len(coarse))); b = coarse.pop(rng.randrange(len(coarse))); coarse.insert(rng.randrange(len(coarse) + 1), a + b)
+                parts = rng.choice([[coarse, fine], [fine, coarse], [fine], [coarse, fine, list(coarse)]])
         is_int = rng.random() < 0.6
         scale = 1 if is_int else rng.choice([1, 1, F(1, 2), F(1, 4), 2])
         conv = (lambda x: int(x)) if is_int else (lambda x: float(x * scale))
         kw = dict(numbers=[conv(a) for a in nums], total=conv(total), weight_type=int if is_int else float,
-                  max_multiplicity=mult, lowerbound=rng.choice([1, 1, 1, 1, 2, 3]),
+                  max_multiplicity=mult, lowerbound=rng.choice([1, 1, 1, 1, 2, 3, 1, 1, 1, 2, 0]),
                   remove_complement_values=rng.random() < 0.8)
         if parts is not None:
             kw["partition_constraints"] = [[conv(s) for s in c] for c in parts]
